@@ -127,7 +127,10 @@ def run(ctx, report):
             R1.violation(inst, inst, 'the value written to the pool is (re)evaluated after the state has started to change: %s' % sorted(seen), where(ea, node))
 
     R4 = report.rule('C07.D4', 'every overlapped memory cell that is deleted has its remainders re-inserted in the same step', floor=1)
-    dels = [n for n in walk_no_nested(ei) if isinstance(n, ast.Delete) and any(u(t).startswith('self.pool[') for t in n.targets)]
+    # (the deletion may sit in eval_instr or in a method eval_instr calls on self)
+    hosts = [ei] + [methods[c.func.attr] for c in ast.walk(ei) if isinstance(c, ast.Call) and isinstance(c.func, ast.Attribute) and u(c.func.value) == 'self'
+                    and c.func.attr in methods and c.func.attr not in ('get_instr_mod', 'get_mem_overlapping', 'substract_mems')]
+    dels = [n for h in hosts for n in walk_no_nested(h) if isinstance(n, ast.Delete) and any(u(t).startswith('self.pool[') for t in n.targets)]
     if not dels:
         raise AnalysisError('eval_instr no longer deletes overlapped cells (del self.pool[x]) -- overlap handling changed')
     for d in dels:
@@ -367,6 +370,9 @@ def run(ctx, report):
     from .c06 import addr_width_rule
     addr_width_rule(R10, ea, methods)
 
+    R11 = report.rule('C07.D11', 'the search for stored cells that start before an access looks back as far as the widest cell reaches', floor=1)
+    lookback_rule(ctx, R11, ea, methods)
+
     R3 = report.rule('C07.D3', 'evaluation never short-cuts on a flag that is not machine state', floor=1)
     ee = methods.get('eval_expr')
     if ee is None:
@@ -527,6 +533,78 @@ def double_eval_rule(R, ea, methods, eh, efe):
         raise AnalysisError('only %d eval_expr call sites found' % n_sinks[0])
 
 
+def lookback_rule(ctx, R, ea, methods):
+    """get_mem_overlapping enumerates the addresses a - k .. a + size/8 - 1 and looks each up among the stored cells.  A cell of w bytes that starts k < w
+    bytes before the access overlaps it, so k has to reach w_max - 1 where w_max is the widest cell the lifter stores (the size table of dict_to_Expr:
+    128 bits for xmm, 80 for an x87 tbyte, 64 for mm / cmpxchg8b).  Accepted: a constant lower bound of at least that, or a bound computed from the sizes
+    of the cells in the pool."""
+    from ..consteval import Evaluator, NotConst
+    fn = methods.get('get_mem_overlapping')
+    if fn is None:
+        raise AnalysisError('eval_abs.get_mem_overlapping not found')
+    # (a for statement or a comprehension over range(-k, size//8))
+    ranges = [n for n in walk_no_nested(fn) if isinstance(n, ast.Call) and u(n.func) == 'range' and len(n.args) == 2 and 'size' in u(n.args[1])]
+    if len(ranges) != 1:
+        raise AnalysisError('get_mem_overlapping: the enumeration of the reachable addresses (range(-k, e.size//8)) was not found (%d candidates)' % len(ranges))
+    low = ranges[0].args[0]
+    loops = [ranges[0]]
+    # the widest cell: the memory-size table of the lifter
+    sem = ctx.mod('ia32_sem')
+    d2e = sem.func('dict_to_Expr')
+    widest = 0
+    for n in ast.walk(d2e):
+        if isinstance(n, ast.Assign) and u(n.targets[0]) == 'msize' and isinstance(n.value, ast.Dict):
+            widest = max(v.value for v in n.value.values if isinstance(v, ast.Constant) and isinstance(v.value, int))
+    if not widest:
+        raise AnalysisError('dict_to_Expr: the memory-size table msize was not found')
+    need = widest // 8 - 1
+    inst = 'get_mem_overlapping: look-back'
+    try:
+        k = -Evaluator({}).ev(low)
+    except NotConst:
+        k = None
+    if k is not None:
+        if k >= need:
+            R.ok(inst, sample='looks back %d bytes, the widest cell has %d' % (k, widest // 8))
+        else:
+            R.violation(inst, 'lookback:%d' % k, 'get_mem_overlapping looks back %d bytes for cells that start before the access; the lifter stores cells of up to %d bits (%d bytes), so an '
+                        'access %d..%d bytes into such a cell does not find it: a load returns the initial memory, a store leaves the stale cell'
+                        % (k, widest, widest // 8, k + 1, widest // 8 - 1), where(ea, loops[0]), witness="movdqa [ebx], xmm0 ; mov al, [ebx+9] gives al = @8[ebx+9], the initial memory")
+        return
+    # computed bound: must come from the sizes of the cells of the pool
+    names = [x.id for x in ast.walk(low) if isinstance(x, ast.Name)]
+    srcs = [a.value for a in walk_no_nested(fn) if isinstance(a, ast.Assign) and len(a.targets) == 1 and isinstance(a.targets[0], ast.Name) and a.targets[0].id in names]
+    txt = ' ; '.join(u(x) for x in srcs)
+    if srcs and 'pool_mem' in txt and 'size' in txt and 'max(' in txt:
+        # evaluate it on a pool holding a 128-bit and an 8-bit cell
+        from ..consteval import Obj, Native
+
+        def _C(size):
+            o = Obj('cell')
+            o.size = size
+            o.get_size = Native(lambda: size)
+            return o
+        pool = Obj('pool')
+        pool.pool_mem = {'a': (_C(widest), _C(widest)), 'b': (_C(8), _C(8))}
+        self_ = Obj('self')
+        self_.pool = pool
+        loc = {'self': self_}
+        try:
+            ev = Evaluator({})
+            for a in walk_no_nested(fn):
+                if isinstance(a, ast.Assign) and len(a.targets) == 1 and isinstance(a.targets[0], ast.Name) and a.targets[0].id in names:
+                    ev.exec_stmts([a], loc)
+            k = -ev.ev(low, loc)
+        except NotConst as e:
+            raise AnalysisError('get_mem_overlapping: the look-back bound is outside the evaluable subset: %s' % e)
+        if k >= need:
+            R.ok(inst, sample='the look-back is computed from the pool: %d bytes for a pool whose widest cell has %d' % (k, widest // 8))
+        else:
+            R.violation(inst, 'lookback:computed:%d' % k, 'with a %d-bit cell in the pool get_mem_overlapping looks back %d bytes only (needed: %d)' % (widest, k, need), where(ea, loops[0]))
+    else:
+        raise AnalysisError('get_mem_overlapping: unmodelled look-back bound %s' % u(low))
+
+
 MUTANTS = [
     ('getreg-reeval', 'miasmx/expression/expression_eval_abstract.py', "        return self.pool[r]\n", "        return self.eval_expr(self.pool[r], {})\n", 'C07.D7'),
     ('overlap-addr-reeval', 'miasmx/expression/expression_eval_abstract.py', "            ex = expr_simp(e.arg - x)", "            ex = expr_simp(self.eval_expr(e.arg - x, eval_cache))", 'C07.D7'),
@@ -554,4 +632,6 @@ MUTANTS = [
     ('instr-mod-late', 'miasmx/expression/expression_eval_abstract.py',
      '        tmp_ops = self.get_instr_mod(exprs)\n        mem_dst = []\n', '        mem_dst = []\n        del self.pool[exprs[0].dst]\n        tmp_ops = self.get_instr_mod(exprs)\n', 'C07.D1'),
     ('read-addr-not-widened', 'miasmx/expression/expression_eval_abstract.py', "        a_val = self.mem_addr(a_val)\n", "", 'C07.D10'),
+    ('lookback-constant-3', 'miasmx/expression/expression_eval_abstract.py', "        for i in range(-back, e.size//8):", "        for i in range(-3, e.size//8):", 'C07.D11'),
+    ('lookback-off-by-one', 'miasmx/expression/expression_eval_abstract.py', "+ [8])//8 - 1\n", "+ [8])//8 - 2\n", 'C07.D11'),
 ]
